@@ -89,7 +89,8 @@ func (e *Env) RunTLC(o TLCOpts) (*TLCResult, error) {
 	defer os.RemoveAll(meta)
 	args := []string{"-XX:+UseParallelGC", "-Xss64m", "-cp", "/opt/veriftools/tla/tla2tools.jar:/opt/veriftools/tla/CommunityModules-deps.jar"}
 	_ = args
-	targs := []string{"-workers", strconv.Itoa(o.Workers), "-metadir", meta, "-config", o.Cfg, "-noGenerateSpecTE"}
+	// (-maxSetSize: the file universe of MC_Filter at four lines is a set of 1.3 million functions)
+	targs := []string{"-workers", strconv.Itoa(o.Workers), "-metadir", meta, "-config", o.Cfg, "-noGenerateSpecTE", "-maxSetSize", "8000000"}
 	if o.Simulate != "" {
 		targs = append(targs, "-simulate", o.Simulate)
 		if o.DepthArg > 0 {
